@@ -2,7 +2,7 @@
    name.  This is what is extracted; the correspondence harness calls these
    and nothing else. *)
 From AK Require Import Base.Prelude Base.Sx Bytes.Text Bytes.FabHeader Bytes.BinFile
-  Reader.Select Reader.BoxRead Reader.Level Plotfile.TextHeader Taste.Taste Reader.ReadSpec Plotfile.Abstract Writers.Colander Writers.ColanderSpec Writers.Combine Writers.CombineSpec Writers.Chef Writers.Chk2plt Writers.ChkHeader Writers.ChefToolProofs Writers.FullPipeline Writers.GoodB
+  Reader.Select Reader.BoxRead Reader.Level Plotfile.TextHeader Taste.Taste Reader.ReadSpec Plotfile.Abstract Writers.Colander Writers.ColanderSpec Writers.Combine Writers.CombineSpec Writers.Chef Writers.Chk2plt Writers.ChkHeader Writers.Chk2pltTool Writers.ChefToolProofs Writers.FullPipeline Writers.GoodB
   Array.Paint Mandoline.Plate Mandoline.Slice3D Mandoline.SlicePlot Whip.Whip Pestle.Pestle Point.PointQuery Menu.Menu Paths.Posix.
 
 Definition as_Zs := as_list as_Z.
@@ -595,6 +595,37 @@ Definition e_chk_written (s : sx) : sx :=
   | _ => bad_request
   end.
 
+(* ---- C17: the whole conversion (Chk2pltTool.chk2plt_tool, theorem C17_tool).  request: (text wholes toints frepr dx_rows
+   bounds species do_gradp do_ir floored_per_level y_start nspecies (n_state n_gradp n_ir) levels), levels = list of
+   (state_files state_cells gradp_files gradp_cells ir_files ir_cells) -> the plotfile directory ---- *)
+Definition dec_chk_ldisk (s : sx) : option chk_ldisk :=
+  match s with
+  | SL [sf; sc; gf; gc; rf; rc] =>
+      do sf <- dec_disk sf; do sc <- dec_cells sc; do gf <- dec_disk gf; do gc <- dec_cells gc;
+      do rf <- dec_disk rf; do rc <- dec_cells rc;
+      Some {| cd_state_files := sf; cd_state_cells := sc; cd_gradp_files := gf; cd_gradp_cells := gc;
+              cd_ir_files := rf; cd_ir_cells := rc |}
+  | _ => None
+  end.
+
+Definition e_chk2plt_tool (s : sx) : sx :=
+  match s with
+  | SL [t; wholes; toints; frepr; dxrows; bnds; species; dg; di; fls; SZ ys; SZ ns; SL [SZ n_state; SZ n_gradp; SZ n_ir]; levels] =>
+      req (do t <- as_text t; do w <- as_Bs wholes; do ti <- as_list (as_pair as_B as_Z) toints;
+           do fr <- as_list (as_pair as_B as_B) frepr; do dx <- as_list as_Bs dxrows;
+           do bd <- as_list (as_list (as_list (as_pair as_B as_B))) bnds;
+           do species <- as_Bs species; do dg <- as_bool dg; do di <- as_bool di;
+           do fls <- as_list (as_opt (as_list as_Bs)) fls;
+           do levels <- as_list dec_chk_ldisk levels;
+           Some (t, w, ti, fr, dx, bd, species, dg, di, fls, levels))
+          (fun '(t, w, ti, fr, dx, bd, species, dg, di, fls, levels) =>
+             of_result enc_pdisk
+               (chk2plt_tool (fun x => mem x w) (tbl_Z ti) (tbl_B fr) (fun lv => nth (Z.to_nat lv) dx [])
+                             (fun lv => nth (Z.to_nat lv) bd []) species dg di (fun k => nth k fls None) ys ns
+                             n_state n_gradp n_ir {| cdk_header := t; cdk_levels := levels |}))
+  | _ => bad_request
+  end.
+
 (* ---- C07: mandoline 3D slice (array output) ----
    request: (levels limit cn P dom_lo dom_hi ncomp nx ny), levels = lists of (lo hi (component bytes ...));
    result: (left right), each a list over pixels (x major) of () or ((words...) normal level) *)
@@ -727,6 +758,7 @@ Definition entries : list (string * (sx -> sx)) :=
     ("chk2plt_level_dir", e_chk2plt_level_dir);
     ("chk_header", e_chk_header);
     ("chk_written", e_chk_written);
+    ("chk2plt_tool", e_chk2plt_tool);
     ("slice3d", e_slice3d);
     ("menu", e_menu);
     ("minuterie", e_minuterie);
